@@ -95,3 +95,68 @@ def reset_module_state():
             else:
                 md[k] = _fresh(v)
         _sizes[name] = len(md)
+
+
+# State carried by function objects (attributes, mutable default arguments) and
+# by functools caches is put back as well: a planted `f.cache = {}` or
+# `@lru_cache` must not leak from one simulated run into the next.
+_fpristine = {}
+_fcount = [-1]
+_flist = []
+_caches = []
+
+
+def _all_functions():
+    if _fcount[0] != len(sys.modules):
+        _fcount[0] = len(sys.modules)
+        seen = set()
+        _flist.clear()
+        _caches.clear()
+        for name in _modlist[0] or []:
+            for v in list(vars(sys.modules[name]).values()):
+                cands = [v]
+                if isinstance(v, type) and getattr(v, "__module__", "").startswith("pyyeti"):
+                    cands += [getattr(a, "__func__", a) for a in vars(v).values()]
+                for c in cands:
+                    if id(c) in seen:
+                        continue
+                    if isinstance(c, _types.FunctionType) and (c.__module__ or "").startswith("pyyeti"):
+                        seen.add(id(c))
+                        _flist.append(c)
+                    elif hasattr(c, "cache_clear") and callable(getattr(c, "cache_clear", None)) and hasattr(c, "__wrapped__"):
+                        seen.add(id(c))
+                        _caches.append(c)
+    return _flist
+
+
+def reset_function_state():
+    for f in _all_functions():
+        base = _fpristine.get(f)
+        if base is None:
+            d = f.__defaults__
+            kd = f.__kwdefaults__
+            mut = bool(d and any(not isinstance(x, _IMMUTABLE + (tuple,)) and not isinstance(x, _NOT_DATA) for x in d)) or bool(
+                kd and any(not isinstance(x, _IMMUTABLE + (tuple,)) and not isinstance(x, _NOT_DATA) for x in kd.values())
+            )
+            _fpristine[f] = (dict(f.__dict__), _fresh(d) if mut else None, _fresh(kd) if mut else None)
+            continue
+        fd, d, kd = base
+        if f.__dict__ or fd:
+            f.__dict__ = {k: _fresh(v) for k, v in fd.items()}
+        if d is not None:
+            f.__defaults__ = _fresh(d)
+        if kd is not None:
+            f.__kwdefaults__ = _fresh(kd)
+    for c in _caches:
+        try:
+            c.cache_clear()
+        except Exception:
+            pass
+
+
+_reset_module_state_only = reset_module_state
+
+
+def reset_module_state():  # noqa: F811 - extended
+    _reset_module_state_only()
+    reset_function_state()
